@@ -14,9 +14,7 @@
 #include <iterator>
 
 #if _OPENMP >= 201811
-#ifndef mutexinout
-#define commute mutexinout
-#endif
+#define commute mutexinoutset
 #else
 #define commute inout
 #endif
